@@ -134,6 +134,15 @@ pub struct CustomDeco {
     /// letters, words ...); empty means decimal numbers
     #[serde(default)]
     pub ol_labels: Vec<String>,
+    /// appended to the block prefixes (quote, list bullet, heading, ordered
+    /// suffix) depending on the nesting level of the decorator, which
+    /// `make_subblock_decorator` advances; empty: the same at every level
+    #[serde(default)]
+    pub per_level: Vec<String>,
+    /// the decorator counts links and images (`&mut self` methods) and puts
+    /// the count into its closing strings
+    #[serde(default)]
+    pub counting: bool,
 }
 
 #[derive(Serialize, Deserialize, Clone, Debug, PartialEq, Eq)]
@@ -179,6 +188,10 @@ pub struct ConfigSpec {
     pub use_doc_css: bool,
     #[serde(default)]
     pub css: Vec<CssSpec>,
+    /// Order in which the builder methods are called (0: the canonical order;
+    /// otherwise the seed of a permutation, with some calls made twice).
+    #[serde(default)]
+    pub builder_order: u64,
 }
 
 impl ConfigSpec {
@@ -197,6 +210,7 @@ impl ConfigSpec {
             do_decorate: false,
             use_doc_css: false,
             css: vec![],
+            builder_order: 0,
         }
     }
     /// True if no option is set at all (so the free functions of the crate,
@@ -215,6 +229,24 @@ pub enum ErrKind {
     TimedOut,
     Other,
     InvalidData,
+    BrokenPipe,
+    PermissionDenied,
+    NotFound,
+    InvalidInput,
+    OutOfMemory,
+    Unsupported,
+    ConnectionAborted,
+    NotConnected,
+    WriteZero,
+    /// `io::Error::from_raw_os_error(EIO)`: no custom payload, OS message
+    RawEio,
+    /// `from_raw_os_error(EAGAIN)` (kind WouldBlock)
+    RawEagain,
+    /// `from_raw_os_error(ENOMEM)` (kind OutOfMemory)
+    RawEnomem,
+    /// an error with a payload that is itself an io::Error of kind Interrupted
+    /// (the outer kind is Other: it must NOT be retried)
+    OtherWrappingInterrupted,
 }
 
 impl ErrKind {
@@ -227,6 +259,24 @@ impl ErrKind {
             ErrKind::TimedOut => K::TimedOut,
             ErrKind::Other => K::Other,
             ErrKind::InvalidData => K::InvalidData,
+            ErrKind::BrokenPipe => K::BrokenPipe,
+            ErrKind::PermissionDenied => K::PermissionDenied,
+            ErrKind::NotFound => K::NotFound,
+            ErrKind::InvalidInput => K::InvalidInput,
+            ErrKind::OutOfMemory => K::OutOfMemory,
+            ErrKind::Unsupported => K::Unsupported,
+            ErrKind::ConnectionAborted => K::ConnectionAborted,
+            ErrKind::NotConnected => K::NotConnected,
+            ErrKind::WriteZero => K::WriteZero,
+            ErrKind::RawEio => return std::io::Error::from_raw_os_error(libc::EIO),
+            ErrKind::RawEagain => return std::io::Error::from_raw_os_error(libc::EAGAIN),
+            ErrKind::RawEnomem => return std::io::Error::from_raw_os_error(libc::ENOMEM),
+            ErrKind::OtherWrappingInterrupted => {
+                return std::io::Error::new(
+                    K::Other,
+                    std::io::Error::new(K::Interrupted, "inner"),
+                )
+            }
         };
         std::io::Error::new(k, "simulated read fault")
     }
